@@ -27,7 +27,7 @@ STUBS = cv_sched.STUBS
 PROBES = ['kind_sched', 'kind_fault', 'kind_timeout', 'kind_oneshot', 'callNovelORF_nonempty',
           'callAltTranslation_nonempty', 'threads_gt_1', 'faulted_execution', 'retried_execution',
           'index_dir_pool', 'peptides_checked', 'table_rows_checked', 'min_mw_gt_500', 'length_limits_nondefault',
-          'oneshot_corpus_reference']
+          'oneshot_corpus_reference', 'paralog_reference', 'candidate_canonical_filtered']
 RULE = ('every completed execution of: (sched) reference + perturbed callVariant executions of engine cv-sched; '
         '(fault) execution with injected unit failures under --skip-failed; (timeout) execution with virtual alarms '
         'and retries; (oneshot) callNovelORF and callAltTranslation on the generated reference with random flags. '
@@ -79,6 +79,16 @@ def check_run(out, task, seed, case, run, ref, files, outp, cfg, what, cache, re
     c.update(cfg)
     bad = c04mon.check_callvariant(run, pool, c)
     out['executions'] += 1
+    if case['stats'].get('paralog_mirror_snvs'):
+        out['probes']['paralog_reference'] = out['probes'].get('paralog_reference', 0) + 1
+    # reach of the canonical clause: how many peptides the units returned that ARE canonical (and had to be filtered)
+    returned = set()
+    for v in run.unit_peptides.values():
+        returned.update(v)
+    pool_il = pool | {x.replace('I', 'L') for x in pool}
+    n_can = sum(1 for x in returned if x in pool_il)
+    if n_can:
+        out['probes']['candidate_canonical_filtered'] = out['probes'].get('candidate_canonical_filtered', 0) + n_can
     if float(c['min_mw']) > 500:
         out['probes']['min_mw_gt_500'] = out['probes'].get('min_mw_gt_500', 0) + 1
     if c['min_length'] < 7 or c['max_length'] < 25:
@@ -211,7 +221,7 @@ def run_oneshot(seed, task, out, only=None):
         case = cvcase.gen_corpus_case(rng)       # real reference (GENCODE attributes present)
         out['probes']['oneshot_corpus_reference'] = 1
     else:
-        case = cvcase.gen_case(rng, n_records=1)
+        case = cvcase.gen_case(rng, n_records=1, paralog=rng.random() < 0.5)
     # callNovelORF reads transcript.biotype: moPepGen.fake writes no gene_type attribute, so add one
     coding = {l[1:].split('|')[1] for l in case['texts']['proteome_fa'].splitlines() if l.startswith('>')}
     gtf_lines = []
